@@ -397,3 +397,17 @@ Print Assumptions c17_inline_identity.
 Theorem c17_inline_beta_rule : ltac:(let t := type of inline_beta_rule in exact t).
 Proof. exact inline_beta_rule. Qed.
 Print Assumptions c17_inline_beta_rule.
+
+(* value preservation of three further rewrites (Model/ConstRw.v); the forms in which they are NOT identities (n-ary concat,
+   signed predicates, distinct chains, BVTransformToBool with #b0) are refuted by examples in Props/ConstRwProps.v -- none of
+   these mutators is on the property's list of documented identities *)
+From DD Require Import Props.ConstRwProps.
+Theorem c17_bv_concat_zext_identity : ltac:(let t := type of rw_bv_concat_zext_identity in exact t).
+Proof. exact rw_bv_concat_zext_identity. Qed.
+Print Assumptions c17_bv_concat_zext_identity.
+Theorem c17_bv_zext_pred_identity : ltac:(let t := type of rw_bv_zext_pred_identity in exact t).
+Proof. exact rw_bv_zext_pred_identity. Qed.
+Print Assumptions c17_bv_zext_pred_identity.
+Theorem c17_arith_split_nary_identity : ltac:(let t := type of rw_arith_split_nary_identity in exact t).
+Proof. exact rw_arith_split_nary_identity. Qed.
+Print Assumptions c17_arith_split_nary_identity.
